@@ -4,10 +4,12 @@ from __future__ import annotations
 
 import ast
 
+from ..astutil import inside, norm_cmp
 from ..cfg import CFG
 from ..core import AnalysisError, const_value
 from ..defuse import DefUse, Terms, show, walk_term
 from ..flow import Flow
+from ..paths import path_variants
 
 EXPLANATION = (
     "Static analysis of the tail of brew.brew, model._get_starting_labels, "
@@ -250,92 +252,98 @@ def _starting_labels(ctx, f, fit):
               "Model.fit stores count, feature name and direction from the "
               "matching positions of _get_starting_labels' result",
               f"returned {order}, unpacked into {tnames}", node=un[0])
-    # the three-way branch: direction given explicitly
-    top = [s for s in f.node.body if isinstance(s, ast.If)]
-    ctx.require(top, f"{f.qual}: branch structure not recognised")
-    # explicit-direction arm: innermost else of the first if/elif chain
-    arm = top[0]
-    while arm.orelse and len(arm.orelse) == 1 and isinstance(
-            arm.orelse[0], ast.If):
-        arm = arm.orelse[0]
-    ex = arm.orelse
-    ctx.require(ex, f"{f.qual}: explicit-direction arm not found")
-    sel = [s for s in ex if isinstance(s, ast.If)]
-    ctx.require(len(sel) == 1, f"{f.qual}: direction choice not found")
-    sel = sel[0]
-    # best_feat must be a column NAME (kind lattice NAME/ARRAY)
-    bfd = [s for s in ex if isinstance(s, ast.Assign)
-           and ast.unparse(s.targets[0]) == order[2]]
-    ok_n = len(bfd) == 1 and ast.unparse(bfd[0].value) == "model.direction"
-    ctx.check(ok_n, "C07a-best-feat-is-a-name", f,
-              "with an explicit direction the recorded best feature is the "
-              "feature's name",
-              f"best_feat = {[ast.unparse(b.value) for b in bfd]} (brew "
-              "uses it as a column name)", node=ex[0])
-    Tex = Terms(du)
+    # one variant per path through the branches that set the result: the
+    # labels, count, name and direction returned on a path are judged
+    # together
+    facts = []
+    for v in path_variants(f.node):
+        vdu = DefUse(prog, f, fnode=v.fnode)
+        vT = Terms(vdu)
+        rs = [t for _r, t in vT.returns()]
+        if not rs:
+            continue
+        ctx.require(len(rs) == 1 and rs[0][0] == "tuple"
+                    and len(rs[0][1]) == 4,
+                    f"{f.qual}: a path does not return a 4-tuple")
+        lab, cnt, name, desc = rs[0][1]
+        conds = []
+        for test, outcome in v.conds:
+            t = vT.of(test)
+            while t[0] == "un" and t[1] == "not":
+                t, outcome = t[2], not outcome
+            conds.append(norm_cmp(t, outcome) or (t, outcome))
+        facts.append({"lab": lab, "cnt": cnt, "name": name, "desc": desc,
+                      "conds": conds,
+                      "where": [ast.unparse(t)[:50] + f"={o}"
+                                for t, o in v.conds]})
+    ctx.floor("C07a-starting-label-paths", len(facts), 4)
 
-    def arm_facts(body):
-        a = {ast.unparse(s.targets[0]): s.value for s in body
-             if isinstance(s, ast.Assign)}
-        lab = a.get(order[0])
-        cnt = a.get(order[1])
-        d = a.get(order[3])
-        if lab is None or cnt is None or d is None:
-            return None
-        lt = Tex.of(lab)
-        ct = Tex.of(cnt)
-        # labels: psms._update_labels(feat, fdr, desc=K)
-        k = None
+    def ul_desc(lt):
+        """direction constant of a psms._update_labels(...) term"""
         if lt[0] == "mcall" and lt[2] == "_update_labels":
             k = dict(lt[4]).get("desc")
             if k is None and len(lt[3]) >= 3:
                 k = lt[3][2]
-        want_cnt = ("mcall", ("cmp", "==", lt, ("const", 1)), "sum", (), ())
-        return {"desc_const": const_value(d), "labels_desc":
-                k[1] if k and k[0] == "const" else None,
-                "count_matches_labels": ct == want_cnt,
-                "count": ct}
+            if k is None:
+                return True       # the method's default
+            return k[1] if k[0] == "const" else None
+        return None
 
-    fa, fb_ = arm_facts(sel.body), arm_facts(sel.orelse)
-    ok_arms = (fa is not None and fb_ is not None
-               and fa["desc_const"] == fa["labels_desc"]
-               and fb_["desc_const"] == fb_["labels_desc"]
-               and fa["count_matches_labels"]
-               and fb_["count_matches_labels"]
-               and {fa["desc_const"], fb_["desc_const"]} == {True, False})
+    explicit = [x for x in facts if x["desc"][0] == "const"]
+    auto = [x for x in facts if any(
+        isinstance(t, tuple) and t and t[0] == "mcall"
+        and t[2] == "_find_best_feature" for t in walk_term(x["lab"]))]
+    ctx.require(len(explicit) == 2, f"{f.qual}: expected two paths with a "
+                f"constant direction, found {len(explicit)}")
+    ctx.require(len(auto) == 1, f"{f.qual}: expected one path through "
+                f"_find_best_feature, found {len(auto)}")
+    # best_feat must be a column NAME (kind lattice NAME/ARRAY)
+    want_name = ("attr", ("param", f.params[1]), "direction")
+    ok_n = all(x["name"] == want_name for x in explicit)
+    ctx.check(ok_n, "C07a-best-feat-is-a-name", f,
+              "with an explicit direction the recorded best feature is the "
+              "feature's name",
+              f"best_feat = {[show(x['name'], 60) for x in explicit]} (brew "
+              "uses it as a column name)", node=f.node)
+    for x in explicit:
+        x["labels_desc"] = ul_desc(x["lab"])
+        x["count_ok"] = x["cnt"] == (
+            "mcall", ("cmp", "==", x["lab"], ("const", 1)), "sum", (), ())
+    ok_arms = all(x["labels_desc"] is not None
+                  and x["labels_desc"] == x["desc"][1] and x["count_ok"]
+                  for x in explicit) and \
+        {x["desc"][1] for x in explicit} == {True, False}
     ctx.check(ok_arms, "C07a-direction-arms-consistent", f,
-              "each arm returns labels, their own accepted count and the "
-              "direction they were computed with",
-              "then-arm %s; else-arm %s" % tuple(
-                  None if x is None else {k: (show(v, 60) if k == "count"
-                                              else v) for k, v in x.items()}
-                  for x in (fa, fb_)), node=sel)
-    # the choice compares the two counts
-    st = ast.unparse(sel.test)
-    ok_t = False
-    if fa and fb_ and isinstance(sel.test, ast.Compare):
-        l, r = Tex.of(sel.test.left), Tex.of(sel.test.comparators[0])
-        opn = type(sel.test.ops[0]).__name__
-        ca, cb = fa["count"], fb_["count"]
-        ok_t = (l == ca and r == cb and opn in ("Gt", "GtE")) or (
-            l == cb and r == ca and opn in ("Lt", "LtE"))
+              "each explicit-direction path returns labels, their own "
+              "accepted count and the direction they were computed with",
+              "; ".join(
+                  f"path {x['where'][-1]}: direction {x['desc'][1]}, labels "
+                  f"computed with desc={x['labels_desc']}, count is "
+                  f"{'the' if x['count_ok'] else 'NOT the'} number of "
+                  "accepted labels" for x in explicit), node=f.node)
+    # the choice compares the two counts: on the path that returns count C
+    # the other count O satisfies O <= C (or O < C)
+    ok_t = True
+    for x, y in (explicit, explicit[::-1]):
+        ok_t = ok_t and any(
+            c[0] in ("lt", "le") and c[1] == y["cnt"] and c[2] == x["cnt"]
+            for c in x["conds"])
     ctx.check(ok_t, "C07a-direction-choice", f,
               "the direction with more accepted targets is chosen",
-              f"choice is '{st}'", node=sel)
-    # automatic arm: unpack of _find_best_feature in matching order
-    auto = top[0].body
-    un2 = [s for s in auto if isinstance(s, ast.Assign)
-           and isinstance(s.targets[0], ast.Tuple)]
-    ok_a = False
-    if un2:
-        names = [ast.unparse(e) for e in un2[-1].targets[0].elts]
-        src = Tex.of(un2[-1].value)
-        ok_a = names == [order[2], order[1], order[0], order[3]] and \
-            src[0] == "mcall" and src[2] == "_find_best_feature"
+              "; ".join(f"direction {x['desc'][1]} is taken when "
+                        f"{x['where'][-1]}" for x in explicit), node=f.node)
+    # automatic path: (name, count, labels, direction) of _find_best_feature
+    # used position by position
+    x = auto[0]
+    items = [x["name"], x["cnt"], x["lab"], x["desc"]]
+    ok_a = all(t[0] == "item" and t[2] == i and t[1][0] == "mcall"
+               and t[1][2] == "_find_best_feature"
+               for i, t in enumerate(items)) and \
+        len({t[1] for t in items}) == 1
     ctx.check(ok_a, "C07a-automatic-arm", f,
               "automatic direction: (name, count, labels, direction) of "
               "_find_best_feature are used position by position",
-              f"{[ast.unparse(u) for u in un2]}", node=top[0])
+              f"{[show(t, 60) for t in items]}", node=f.node)
 
 
 def _best_feature_loop(ctx, f):
@@ -356,44 +364,79 @@ def _best_feature_loop(ctx, f):
               "the loop over the directions can stop early: a strong "
               "lower-is-better feature is never considered once any "
               "higher-is-better feature accepts a PSM", node=lp)
-    dv = lp.target.id
-    upd = [s for s in lp.body if isinstance(s, ast.If)]
-    ctx.require(len(upd) == 1 and isinstance(upd[0].test, ast.Compare),
-                f"{f.qual}: improvement test not found")
-    u = upd[0]
-    cmp_ok = type(u.test.ops[0]).__name__ in ("Gt", "GtE")
-    assigned = {}
-    for s in u.body:
-        if isinstance(s, ast.Assign) and isinstance(s.targets[0], ast.Name):
-            assigned[s.targets[0].id] = s.value
     rets = [n for n in ast.walk(f.node) if isinstance(n, ast.Return)]
     ctx.require(len(rets) == 1 and isinstance(rets[0].value, ast.Tuple)
-                and len(rets[0].value.elts) == 4,
-                f"{f.qual}: expected a 4-tuple return")
-    r_feat, r_cnt, r_lab, r_desc = (ast.unparse(e)
-                                    for e in rets[0].value.elts)
-    cand = ast.unparse(u.test.left)
-    ok = (cmp_ok and ast.unparse(u.test.comparators[0]) == r_cnt
-          and r_cnt in assigned and ast.unparse(assigned[r_cnt]) == cand
-          and r_feat in assigned and r_lab in assigned
-          and r_desc in assigned
-          and ast.unparse(assigned[r_desc]) == dv)
-    ctx.check(ok, "C07a-best-updated-together", f,
+                and len(rets[0].value.elts) == 4
+                and all(isinstance(e, ast.Name)
+                        for e in rets[0].value.elts),
+                f"{f.qual}: expected a 4-tuple of names as return")
+    cfg = CFG(f.node)
+    du = DefUse(prog, f)
+    T = Terms(du, phi_vars=True)
+    # the in-loop definition of each returned variable, its value and the
+    # conditions (decided inside the loop) under which it is executed
+    slots = {}
+    for key, e in zip(("feat", "cnt", "lab", "desc"), rets[0].value.elts):
+        inloop = [d for d in du.defs_of(e) if d.node is not None
+                  and inside(d.node, lp) and d.node is not lp]
+        ctx.require(len(inloop) == 1,
+                    f"{f.qual}: '{e.id}' is assigned {len(inloop)} times in "
+                    "the direction loop; rule C07a needs re-reading")
+        d = inloop[0]
+        conds = set()
+        for test, outcome in cfg.necessary_conditions(d.node):
+            if not inside(test, lp):
+                continue
+            t = T.of(test)
+            while t[0] == "un" and t[1] == "not":
+                t, outcome = t[2], not outcome
+            conds.add(norm_cmp(t, outcome) or (t, outcome))
+        slots[key] = (e.id, d, T.of_def(d), conds)
+    same = len({frozenset(v[3]) for v in slots.values()}) == 1
+    cnt_name, _d, cnt_val, conds = slots["cnt"]
+    better = [c for c in conds if c[0] in ("lt", "le")
+              and c[1][0] == "var" and c[1][1] == cnt_name
+              and c[2] == cnt_val]
+    ok = same and len(conds) == 1 and len(better) == 1
+    loop_elem = ("elem", T.of(lp.iter))
+    ok_desc = slots["desc"][2] == loop_elem
+    ctx.check(ok and ok_desc, "C07a-best-updated-together", f,
               "feature, count, labels and direction of the best candidate "
-              "are updated together when a candidate accepts more targets",
-              f"test '{ast.unparse(u.test)}' assigns {sorted(assigned)}",
-              node=u)
-    if ok:
-        lab = assigned[r_lab]
-        txt = ast.unparse(lab)
-        kws = {k.arg: ast.unparse(k.value) for k in lab.keywords} if \
-            isinstance(lab, ast.Call) else {}
-        ok_l = kws.get("desc") == dv and "_update_labels" in txt and (
-            ast.unparse(assigned[r_feat]) in txt or r_feat in txt)
+              "are updated together, exactly when a candidate accepts more "
+              "targets than the best so far",
+              "in-loop updates: " + "; ".join(
+                  f"{v[0]} := {show(v[2], 50)} under "
+                  f"{sorted(show(c, 60) for c in v[3])}"
+                  for v in slots.values()),
+              node=slots["cnt"][1].node)
+    if ok and ok_desc:
+        lab = slots["lab"][2]
+        feat = slots["feat"][2]
+        ok_l = False
+        is_m = lab[0] == "mcall" and lab[2] == "_update_labels"
+        is_f = lab[0] == "call" and str(lab[1]).endswith("._update_labels")
+        if is_m or is_f:
+            args, kws = (lab[3], dict(lab[4])) if is_m else (
+                lab[2], dict(lab[3]))
+            di = 2 if is_m else 3
+            dterm = kws.get("desc", args[di] if len(args) > di else None)
+            sc = kws.get("scores", args[0] if args else None)
+            ok_l = dterm == loop_elem and sc is not None and any(
+                x == feat for x in walk_term(sc))
         ctx.check(ok_l, "C07a-labels-of-best", f,
                   "the labels returned are those of the winning feature in "
                   "the winning direction",
-                  f"labels = {txt[:120]}", node=u)
+                  f"labels = {show(lab, 160)}", node=slots["lab"][1].node)
+    # the candidate count is the count of the candidate feature in the
+    # candidate direction
+    cnt_ok = any(
+        isinstance(x, tuple) and x and x[0] == "mcall"
+        and x[2] == "_targets_count_by_feature" and loop_elem in (
+            list(x[3]) + [v for _k, v in x[4]])
+        for x in walk_term(cnt_val))
+    ctx.check(cnt_ok, "C07a-count-of-direction", f,
+              "the candidate count is computed in the loop's direction",
+              f"count = {show(cnt_val, 160)}", node=slots["cnt"][1].node)
 
 
 # ------------------------------------------------------------------ b
